@@ -24,6 +24,11 @@ Models ==
                           inputs |-> <<InD("x", <<DSym, DFix(3)>>)>>, outputs |-> <<"t", "y">>,
                           inits |-> [w |-> T("f32", <<3, 2>>, <<1, -2, 0, 3, -1, 1>>), c |-> T("f32", <<2>>, <<5, -5>>)]],
                    axis |-> 0, sample |-> <<3>>, oaxes |-> <<0, 0>>],
+    \* beta scales the bias: 2*x*w + 0.5*c for every sample, whatever the other samples of the call hold
+    gemm_beta |-> [g |-> [nodes |-> <<Nd("Gemm", <<AF("alpha", Fin(2)), AF("beta", Rat(1, 2))>>, <<"x", "w", "c">>, <<"t">>), Nd("Relu", <<>>, <<"t">>, <<"y">>)>>,
+                          inputs |-> <<InD("x", <<DSym, DFix(3)>>)>>, outputs |-> <<"t", "y">>,
+                          inits |-> [w |-> T("f32", <<3, 2>>, <<1, -2, 0, 3, -1, 1>>), c |-> T("f32", <<2>>, <<8, -12>>)]],
+                   axis |-> 0, sample |-> <<3>>, oaxes |-> <<0, 0>>],
     matmul_add |-> [g |-> [nodes |-> <<Nd("MatMul", <<>>, <<"x", "w">>, <<"t">>), Nd("Add", <<>>, <<"t", "v">>, <<"y">>), Nd("Abs", <<>>, <<"y">>, <<"z">>)>>,
                            inputs |-> <<InD("x", <<DSym, DFix(3)>>)>>, outputs |-> <<"y", "z">>,
                            inits |-> [w |-> T("f32", <<3, 2>>, <<2, 1, -1, 0, 1, -3>>), v |-> T("f32", <<2>>, <<1, -7>>)]],
@@ -81,7 +86,8 @@ Models ==
 
 \* sample pool: PoolSize distinct samples (as flat data of the per-sample shape)
 PoolSize == 3
-SampleData(m, s) == [k \in 1..Size(Models[m].sample) |-> ((k * 3 + s * 5) % 7) - 3]
+\* (sample 0 is the all-zero sample - padding, a dead activation vector: alone, among its like, and beside the others)
+SampleData(m, s) == [k \in 1..Size(Models[m].sample) |-> IF s = 0 THEN 0 ELSE ((k * 3 + s * 5) % 7) - 3]
 \* stack samples along the batch axis: shape = sample with the batch extent inserted at `axis`
 StackShape(m, n) == LET sh == Models[m].sample a == Models[m].axis IN Take(sh, a) \o <<n>> \o Drop(sh, a)
 Stack(m, ss) ==
@@ -90,7 +96,7 @@ Stack(m, ss) ==
 \* row i (0-based) of tensor t along axis a, keeping the axis with extent 1
 RowOf(t, a, i) == Mk(t.dt, [t.shape EXCEPT ![a + 1] = 1], LAMBDA idx : At(t, [idx EXCEPT ![a + 1] = i]))
 
-Batches == UNION {[1..n -> 1..PoolSize] : n \in 1..MaxBatch}
+Batches == UNION {[1..n -> 1..PoolSize] : n \in 1..MaxBatch} \cup {b \in UNION {[1..n -> 0..PoolSize] : n \in 1..3} : \E i \in DOMAIN b : b[i] = 0}
 Out(m, ss) == RunSem(Models[m].g, [x |-> Stack(m, ss)])
 InitsSeq(g) == LET names == SeqOfSet(DOMAIN g.inits) IN [k \in 1..Len(names) |-> [name |-> names[k], t |-> g.inits[names[k]]]]
 CallJ(m, ss) == LET s == Out(m, ss) IN
@@ -101,7 +107,8 @@ Emit ==
    /\ ~st.done
    /\ LET g == Models[st.m].g IN
       P([prop |-> "C16", fam |-> "batch", kind |-> "model", op |-> "", attrs |-> <<>>, inputs |-> <<>>, nout |-> 0, allowed |-> NoCrash,
-         cmp |-> "num", known |-> <<>>, feat |-> <<st.m, "batch" \o ToString(Len(st.ss))>> \o (IF Len(st.ss) > 1 /\ st.ss[1] = st.ss[2] THEN <<"repeated_sample">> ELSE <<>>),
+         cmp |-> "num", known |-> <<>>, feat |-> <<st.m, "batch" \o ToString(Len(st.ss))>> \o (IF Len(st.ss) > 1 /\ st.ss[1] = st.ss[2] THEN <<"repeated_sample">> ELSE <<>>)
+                   \o (IF \E i \in DOMAIN st.ss : st.ss[i] = 0 THEN <<"zero_sample">> ELSE <<>>),
          x |-> [model |-> [nodes |-> g.nodes, inputs |-> g.inputs, outputs |-> g.outputs, inits |-> InitsSeq(g), opset |-> 13],
                 \* the batch first, then each of its samples alone (on the same Model)
                 calls |-> <<CallJ(st.m, st.ss)>> \o [i \in 1..Len(st.ss) |-> CallJ(st.m, <<st.ss[i]>>)],
